@@ -70,7 +70,61 @@ def make_soc_axi(n, regions, interconnect="shared", full=False, data_width=32, a
     inst = AxiFabric(name, kind, h, masters, slaves, decs, lean_open, full=full, data_width=data_width,
                      address_width=address_width, bus=_SpecBus(data_width, address_width), **kw)
     inst.timeout = "none" if timeout is None else int(timeout)
+    inst.soc_spec = {"kind": "soc", "n": n, "regions": [list(r) for r in regions], "interconnect": interconnect, "full": full,
+                     "data_width": data_width, "address_width": address_width,
+                     "timeout": None if timeout is None else int(timeout)}
     return inst
+
+
+def make_from_soc_spec(spec):
+    return make_soc_axi(spec["n"], [tuple(r) for r in spec["regions"]], spec["interconnect"], full=spec["full"],
+                        data_width=spec["data_width"], address_width=spec["address_width"], timeout=spec["timeout"])
+
+
+def soc_directed_cases(ctx):
+    """Directed one-cycle inputs through real SoCBusHandler fabrics (the glue on the monitored path, not only on the
+    compared one): master 0 presents a write and a read address with every slave ready — addresses inside each region
+    (first / last word) must be accepted by that region's slave only, addresses outside every region (0, just below an
+    origin, just above a window, far away) must not be accepted at all (AxiMonitor rule A).  The one-master-one-slave-at-
+    origin-0 case is wired through by design (instance kind p2p: every address is the slave's)."""
+    from axilib import AxiMonitor
+    dis = []
+    shapes = [(1, [(0x1000, 0x1000)], "shared", False), (1, [(0x1000, 0x1000)], "crossbar", True),
+              (1, [(0x40000000, 0x10000)], "shared", True), (2, [(0, 0x1000)], "shared", False),
+              (1, [(0, 0x1000), (0x40000000, 0x2000)], "crossbar", False),
+              (2, [(0x10000000, 0x1000), (0x40000000, 0x10000)], "crossbar", False), (1, [(0, 0x10000)], "shared", False)]
+    total = 0
+    for n, regs, ic, full in shapes:
+        try:
+            inst = make_soc_axi(n, regs, ic, full=full)
+        except Exception as e:
+            dis.append({"instance": "SoCBusHandler directed %r" % (regs,), "kind": "correspondence-exception",
+                        "what": "building the bus raised %r" % (e,)})
+            continue
+        addrs = {0, 0x2000_0000, 0xffff_fffc}
+        for o, sz in regs:
+            p2 = 1 << (sz - 1).bit_length()
+            addrs |= {o, o + p2 - 4, (o + p2) & 0xffff_fffc, (o - 4) & 0xffff_fffc, (o + 2 * p2) & 0xffff_fffc}
+        nl = inst.netlist
+        root = nl.snapshot()
+        for a in sorted(addrs):
+            nl.restore(root)
+            mon = AxiMonitor(inst)
+            letter = m_part(aw=(a, 1), ar=(a, 1))
+            for _ in range(n - 1):
+                letter += m_part()
+            for _ in regs:
+                letter += s_part(aw_ready=1, ar_ready=1)
+            outs = impl_step(inst, letter)
+            msg = mon.observe(letter, outs)
+            total += 1
+            if msg:
+                dis.append({"instance": inst.name, "make": inst.soc_spec, "kind": "monitor:" + msg, "monitor": msg,
+                            "trace": [list(letter)]})
+                break
+        nl.restore(root)
+    ctx.cov.add_cases("SoCBusHandler fabrics, directed in-region / out-of-region addresses (monitor)", total, total)
+    return dis
 
 
 def soc_fabric_cases(ctx):
@@ -224,4 +278,63 @@ def local_rules_cases(ctx, MAPS, _region_map, quick=True):
             dis.append({"instance": label, "kind": "correspondence",
                         "what": "LocalOK expected to fail first in cycle %d of the witness, model says %r" % (at, first_bad)})
         ctx.cov.add_cases("LocalOK fails on witness: " + label, len(tr), 1)
+    return dis
+
+
+def id_width_cases(ctx):
+    """Masters with DIFFERENT id widths (the AXI4 fabrics size their internal interfaces with the maximum): every master's
+    AWID/ARID must reach the slave unchanged and the slave's BID/RID must come back unchanged to the issuer — checked
+    directly on the real netlist (no model involved: the instance of `axl_id_preserved` for the id field).  A fabric sized
+    from the narrowest master (or from a default) truncates the wide masters' ids."""
+    from litex.soc.interconnect.axi.axi_full import AXIInterface, AXIInterconnectShared, AXICrossbar
+    from netlist import Netlist
+    dis, total = [], 0
+    for cls, label, args in ((AXIInterconnectShared, "AXIInterconnectShared", {"timeout_cycles": None}),
+                             (AXICrossbar, "AXICrossbar", {})):
+        for widths in ([2, 4], [4, 2], [1, 3, 2]):
+            wmax = max(widths)
+            masters = [AXIInterface(data_width=32, address_width=32, id_width=w) for w in widths]
+            slaves = [AXIInterface(data_width=32, address_width=32, id_width=wmax) for _ in range(2)]
+            mod = cls(masters, [(lambda a: a[20] == 0, slaves[0]), (lambda a: a[20] == 1, slaves[1])], **args)
+            nl = Netlist(mod)
+            root = nl.snapshot()
+            for i, (m, w) in enumerate(zip(masters, widths)):
+                for j, s in enumerate(slaves):
+                    for a_ch, r_ch in (("aw", "b"), ("ar", "r")):
+                        nl.restore(root)
+                        idv = ((1 << w) - 2) if w > 1 else 1
+                        ma, sa, mr, sr = getattr(m, a_ch), getattr(s, a_ch), getattr(m, r_ch), getattr(s, r_ch)
+                        addr = j << 22
+                        got = None
+                        for _ in range(len(masters) + 1):       # the grant may need a cycle per master to reach `i`
+                            nl.set(ma.valid, 1); nl.set(ma.addr, addr); nl.set(ma.id, idv); nl.set(sa.ready, 1)
+                            nl.settle()
+                            if nl.getu(sa.valid):
+                                got = nl.getu(sa.id)
+                                nl.tick()
+                                break
+                            nl.tick()
+                        total += 1
+                        what = None
+                        if got != idv:
+                            what = "%s id %#x of master %d (id_width %d) reaches slave %d as %r" % (a_ch, idv, i, w, j, got)
+                        else:
+                            nl.set(ma.valid, 0); nl.set(sa.ready, 0)
+                            nl.set(sr.valid, 1); nl.set(sr.id, idv); nl.set(mr.ready, 1)
+                            if r_ch == "r":
+                                nl.set(sr.last, 1)
+                            nl.settle()
+                            back = nl.getu(mr.id) if nl.getu(mr.valid) else None
+                            if back != idv:
+                                what = "%s id %#x given by slave %d comes back to master %d (id_width %d) as %r" % (
+                                    r_ch, idv, j, i, w, back)
+                        if what:
+                            dis.append({"instance": "%s master id widths %r" % (label, widths), "kind": "monitor:I: " + what,
+                                        "monitor": "I: " + what,
+                                        "input": {"class": label, "master_id_widths": widths, "slave_id_width": wmax,
+                                                  "master": i, "slave": j, "channel": a_ch, "id": idv, "addr": addr}})
+                            break
+                    if dis and dis[-1]["instance"].startswith(label):
+                        break
+    ctx.cov.add_cases("AXI4 fabrics with unequal master id widths: ids preserved both ways (direct check)", total, total)
     return dis
